@@ -6,7 +6,8 @@
    promotions, knight and king steps, slider rays, castling with right/empty squares/unattacked start,
    transit and destination - and not leaving the mover's king attacked).
    The model is tied to the code by the correspondence with the implementation on every run. *)
-From Walleye Require Import Model.Successor Spec.Abs Proofs.MoveGenProofs Proofs.GenerateAbs Proofs.LegalMoves Proofs.NoDupMoves.
+From Walleye Require Import Model.Successor Spec.Abs Proofs.CheckProofs Proofs.MoveGenProofs Proofs.GenerateAbs Proofs.LegalMoves Proofs.NoDupMoves
+     Proofs.LegalPosition Proofs.Preservation.
 Open Scope Z_scope.
 
 (* soundness: no illegal move appears *)
@@ -44,6 +45,29 @@ Proof.
   - now apply generated_moves_NoDup.
 Qed.
 
+(* the hypothesis, read off the property: a coherent representation (sentinel ring, king caches) of a legal
+   position in the sense of C01 (Spec.legal_position: one king a side, the side not to move not in check, no pawn
+   on the first or last rank, castling rights only with king and rook at home, en-passant target directly behind
+   a pawn that could just have double-stepped) satisfies pos_ok1 *)
+Theorem C01_legal_positions_are_covered : forall s,
+  cells_ok (board s) -> kings_ok s -> legal_position (abs s) = true -> pos_ok1 s.
+Proof. exact legal_position_pos_ok1. Qed.
+
+(* "positions reachable from any legal start by any legal move sequence": the hypothesis is an invariant of the
+   generator, so it holds of every position reached through any chain of generated moves *)
+Theorem C01_invariant_of_the_generator : forall zt s x,
+  pos_ok1 s -> In x (generate_moves zt s AllMoves) -> pos_ok1 x.
+Proof. exact generator_preserves_pos_ok1. Qed.
+
+Theorem C01_holds_along_every_chain : forall zt s x,
+  pos_ok1 s -> reachable zt s x ->
+  (forall mv, In (Some mv) (map desc (generate_moves zt x AllMoves)) <-> In mv (legal_moves (abs x))) /\
+  NoDup (map desc (generate_moves zt x AllMoves)).
+Proof.
+  intros zt s x PO R. pose proof (reachable_pos_ok1 zt s x PO R) as POx.
+  destruct (C01_generated_moves_exactly_legal zt x POx) as (A & _ & C). split; assumption.
+Qed.
+
 (* a probed square that passes is_check_cords is not next to the enemy king:
    the king test looks at the probed square, not at the own king's square *)
 Theorem C01_probe_sees_enemy_king : forall s c sq,
@@ -67,5 +91,8 @@ Print Assumptions C01_generated_moves_are_legal.
 Print Assumptions C01_legal_moves_are_generated.
 Print Assumptions C01_no_move_twice.
 Print Assumptions C01_generated_moves_exactly_legal.
+Print Assumptions C01_legal_positions_are_covered.
+Print Assumptions C01_invariant_of_the_generator.
+Print Assumptions C01_holds_along_every_chain.
 Print Assumptions C01_probe_sees_enemy_king.
 Print Assumptions C01_castle_conditions.
